@@ -346,9 +346,9 @@ func runC21(c *CaseCtx) {
 func init() {
 	register(&Check{
 		ID: "C21", Level: "fault_enumeration", NoLeakMonitor: true,
-		NCases: func(t string) int { return tier(t, 120, 1200) + tier(t, 64, 400) },
+		NCases: func(t string) int { return tier(t, 120, 700) + tier(t, 64, 250) },
 		Run: func(c *CaseCtx) {
-			if c.Case >= tier(c.Tier, 120, 1200) {
+			if c.Case >= tier(c.Tier, 120, 700) {
 				runC21DB(c)
 				return
 			}
